@@ -16,6 +16,7 @@ INVARIANT C20_ReductionKeepsEquations
 INVARIANT C20_IteratorEvaluatesEquations
 INVARIANT C20_AttributesFromCurrentBlock
 INVARIANT C20_VectorIsTuple
+INVARIANT C20_ExogenousDeclaredVerbatim
 INVARIANT C20_Closed
 INVARIANT C20_ResolvesSolverNames
 INVARIANT C20_LoopStateOwn
